@@ -283,6 +283,16 @@ func (tt *TermTable) Eq(a, b *Term) *Term {
 			return tt.Not(a)
 		}
 	}
+	// const == ite(p, c1, c2) with constant branches
+	if a.IsConst() && b.op == OIte {
+		a, b = b, a
+	}
+	if a.op == OIte && b.IsConst() && a.w != SortFP {
+		x, y := a.args[1], a.args[2]
+		if (x.IsConst() || x.op == OIte) && (y.IsConst() || y.op == OIte) {
+			return tt.Or(tt.And(a.args[0], tt.Eq(x, b)), tt.And(tt.Not(a.args[0]), tt.Eq(y, b)))
+		}
+	}
 	// byte-extract vs byte-extract of the same positions is kept; concat vs concat split
 	if a.op == OConcat && b.op == OConcat && len(a.args) == len(b.args) {
 		same := true
@@ -839,6 +849,52 @@ func (t *Term) smt(sb *strings.Builder) {
 		}
 		sb.WriteString(")")
 	}
+}
+
+// Rebuild re-creates t over new arguments through the simplifying constructors.
+func (tt *TermTable) Rebuild(t *Term, args []*Term) *Term {
+	switch t.op {
+	case OConst, OVar:
+		return t
+	case ONot:
+		return tt.Not(args[0])
+	case OAnd:
+		return tt.And(args...)
+	case OOr:
+		return tt.Or(args...)
+	case OEq:
+		return tt.Eq(args[0], args[1])
+	case OIte:
+		return tt.Ite(args[0], args[1], args[2])
+	case OAdd, OSub, OMul, OBvAnd, OBvOr, OBvXor, OShl, OLshr, OAshr, OUdiv, OSdiv, OUrem, OSrem:
+		return tt.bin(t.op, args[0], args[1])
+	case ONeg:
+		return tt.Neg(args[0])
+	case OBvNot:
+		return tt.BvNot(args[0])
+	case OUlt, OUle, OSlt, OSle:
+		return tt.cmp(t.op, args[0], args[1])
+	case OExtract:
+		return tt.Extract(t.a, t.b, args[0])
+	case OConcat:
+		return tt.Concat(args...)
+	case OZext:
+		return tt.Zext(args[0], t.w)
+	case OSext:
+		return tt.Sext(args[0], t.w)
+	case OFpOfBits:
+		return tt.FpOfBits(args[0])
+	}
+	same := true
+	for i := range args {
+		if args[i] != t.args[i] {
+			same = false
+		}
+	}
+	if same {
+		return t
+	}
+	return tt.mk(&Term{op: t.op, w: t.w, args: args, a: t.a, b: t.b})
 }
 
 // Vars collects the free variables of t.
